@@ -114,14 +114,18 @@ CLAIMS = {
          "ranking) pairs over 3/4 elements.",
          "Trusted: Coq kernel + vm_compute; model; harness; igraph's SCC order taken as given.",
          "DESIGN.md section 4, C07"),
- "C05": ("Coq-verified brute-force optimum + exchange lemma; every exact run judged in Coq against it",
-         "PARTIAL proof. The solver's branch-and-bound is outside the model and CPLEX is not installed. Machine-checked: opt is the minimum "
-         "generalized Kemeny score over all rankings with ties (lower bound, attained), optimal <-> score = opt, score of the definitional "
-         "table = kemeny_spec, soundness of the SCC decomposition and of the all-tied shortcut. Per run, judged in Coq: every consensus "
-         "returned by ExactAlgorithm(optimize on/off) with CPLEX absent (free-solver fallback) and by ExactAlgorithmPulp (one / all) is "
-         "well-formed, has score = opt, reports that score and is flagged optimal (universes <= 6/7). Not covered in this version: the "
-         "CPLEX model driven through a stand-in module, the 'all minimisers' set, the ILP formulation theorems.",
-         "Trusted: Coq kernel + vm_compute; model; harness; CBC through PuLP judged per run only.",
+ "C05": ("Coq model of the PuLP integer program (rows, objective, decoder) with formulation theorems + verified brute-force optimum; program and solver answer captured at LpProblem.solve and judged in Coq",
+         "Machine-checked for all tables and sizes: the integer program of ExactAlgorithmPulp (binary, transitivity and component-fixing rows; "
+         "objective; the source's decoder) is a correct formulation - every ranking with ties respecting the component order is a feasible point "
+         "with objective = its score, every feasible point decodes to a ranking with ties whose score is the objective, hence decoding ANY "
+         "optimal feasible point gives a global optimum and the minimum of the program is opt (C05_ilp_optimal, C05_ilp_min_reached); opt is "
+         "the minimum over all rankings with ties (lower bound, attained); soundness of the component decomposition. PARTIAL in one respect: "
+         "the branch-and-bound of the solver (CBC) is outside the model - 'its answer is optimal for the program it was given' is an "
+         "assumption, tested on every run against the verified brute force (<= 5 elements in the ilp suite, <= 6/7 in the exact suite). Per run, "
+         "in Coq: captured program = model program row for row, answer integral and feasible for the model rows, model decoder = returned "
+         "consensus, objective = reported score = opt, consensus well-formed, flagged optimal, selector (CPLEX absent: free-solver fallback) "
+         "and free-solver model. Not covered: the CPLEX models (CPLEX is not installed; no stand-in was built) and their 'all minimisers' set.",
+         "Trusted: Coq kernel + vm_compute; model tied by correspondence; harness (captures the program by wrapping LpProblem.solve); CBC's optimality judged per run only.",
          "DESIGN.md section 4, C05"),
  "C08": ("Coq model of the jitted BioConsert kernels + verified local-optimality checker evaluated on every returned ranking",
          "PARTIAL proof. Machine-checked: soundness of the local-optimality test (it bounds the score of EVERY single-element move into every "
